@@ -15,6 +15,9 @@ POOL = {
     "A3": (["H", "H", "e-"], ["H2", "e-"], (10.0, 300.0), "GAS_TWOBODY"),  # other window
     "A4": (["H", "H", "e-"], ["H2", "e-"], (-1.0, -1.0), "GAS_PHOTON"),  # other type
     "A5": (["H", "e-", "H"], ["H2", "e-"], (-1.0, -1.0), "UNKNOWN"),  # type unknown (wildcard in default mode)
+    # same species *sets* as each other, different multiplicities: never equivalent
+    "M1": (["H2"], ["H", "H"], (-1.0, -1.0), "GAS_TWOBODY"),
+    "M2": (["H2", "H2"], ["H", "H", "H", "H"], (-1.0, -1.0), "GAS_TWOBODY"),
     "B0": (["C", "H"], ["CH"], (-1.0, -1.0), "GAS_TWOBODY"),
     "B1": (["H", "C"], ["CH"], (-1.0, -1.0), "GAS_TWOBODY"),
 }
@@ -142,7 +145,7 @@ def run(ctx):
     return {
         "evaluations": judged + skipped,
         "distinct_nontrivial": judged,
-        "rule": f"all lists of length <= {nmax} over a pool of 8 reactions (two bases; permuted reactants / products, other window, other type, unknown type) x modes default/brief/minimal/short; O(n^2) pairwise reference; removal round trip and second call",
+        "rule": f"all lists of length <= {nmax} over a pool of 10 reactions (two bases, a multiplicity-only pair; permuted reactants / products, other window, other type, unknown type) x modes default/brief/minimal/short; O(n^2) pairwise reference; removal round trip and second call",
         "samples": [list(l) for l in lists[:: max(1, len(lists) // 6)][:6]],
         "lists": len(lists),
         "judged_list_mode_pairs": judged,
